@@ -283,6 +283,17 @@ func hSameResult(a, b any) bool {
 		y, ok := b.(Object)
 		return ok && hExact(hSnapAny(x), hSnapAny(y))
 	}
+	if sa, isS := a.(string); isS {
+		// serialised texts: two serialisations of one object may list the fields in different orders, so the
+		// texts are compared as data
+		sb, ok := b.(string)
+		if !ok {
+			return false
+		}
+		pa, oka := refParse(sa)
+		pb, okb := refParse(sb)
+		return oka && okb && hExact(pa, pb)
+	}
 	return a == b
 }
 
